@@ -212,7 +212,10 @@ func c03R2(r *Report, c *pieceCtx) {
 		pred func(ssa.Instruction) bool
 	}{
 		{"data=nil", func(in ssa.Instruction) bool { st, ok := isStoreToField(in, c.data); return ok && isNilConst(st.Val) }},
-		{"bitmap=nil", func(in ssa.Instruction) bool { st, ok := isStoreToField(in, c.bitmapF); return ok && isNilConst(st.Val) }},
+		{"bitmap=nil", func(in ssa.Instruction) bool {
+			st, ok := isStoreToField(in, c.bitmapF)
+			return ok && isNilConst(st.Val)
+		}},
 		{"count--", func(in ssa.Instruction) bool { return countDelta(in, c.count) == -1 }},
 	} {
 		exits := exitsAvoiding(fc, w.pred, false)
@@ -693,11 +696,14 @@ func coversFromZero(idx ssa.Value) bool {
 
 // R9: two structural conditions found by the second round of seeded changes.
 // (a) alloc.Alloc adjusts the counter only on paths that hand out a buffer: from an adjustment of the counter no
-//     return with a non-nil error is reachable (a failed mmap must leave Bytes() unchanged: nobody can ever free
-//     the phantom bytes).
+//
+//	return with a non-nil error is reachable (a failed mmap must leave Bytes() unchanged: nobody can ever free
+//	the phantom bytes).
+//
 // (b) the eviction order is by access time only if accesses refresh it: every path through Torrent.Request on which
-//     `request` is true calls Pieces.UpdateTime before it returns successfully (a read served from the cache
-//     must still count as an access).
+//
+//	`request` is true calls Pieces.UpdateTime before it returns successfully (a read served from the cache
+//	must still count as an access).
 func c03R9(r *Report) {
 	p := r.P
 	if al := p.Func("alloc", "Alloc"); r.Anchor("R9", "alloc.Alloc", al != nil) {
